@@ -12,6 +12,9 @@ import (
 type Loader struct {
 	targetsDir string
 	cache      map[string]*RawConfig
+	// resolving holds the targets on the current inheritance path; seeing one
+	// of them again means the "inherits" lists form a cycle
+	resolving map[string]bool
 }
 
 // NewLoader creates a new target configuration loader
@@ -59,6 +62,15 @@ func (l *Loader) Load(name string) (*Config, error) {
 	if err != nil {
 		return nil, err
 	}
+
+	if l.resolving[name] {
+		return nil, fmt.Errorf("inheritance cycle detected at target %s", name)
+	}
+	if l.resolving == nil {
+		l.resolving = make(map[string]bool)
+	}
+	l.resolving[name] = true
+	defer delete(l.resolving, name)
 
 	return l.resolveInheritance(raw)
 }
